@@ -265,7 +265,7 @@ def tree_fingerprint():
 # --------------------------------------------------------------------------------------------
 # Kani runner + terse parser
 # --------------------------------------------------------------------------------------------
-def run_kani(d, harnesses, features="default", jobs=16, timeout=3000, extra=None, log=None):
+def run_kani(d, harnesses, features="default", jobs=16, timeout=3000, extra=None, log=None, harness_timeout=None):
     """Run the given harnesses (full paths) in one cargo kani invocation. -> (rc, output, wall)"""
     cmd = ["cargo", "kani", "-Z", "function-contracts", "-Z", "stubbing",
            "--output-format=terse", "-j", str(jobs), "--exact"]
@@ -275,6 +275,8 @@ def run_kani(d, harnesses, features="default", jobs=16, timeout=3000, extra=None
         cmd += ["--features", features]
     for h in harnesses:
         cmd += ["--harness", h]
+    if harness_timeout:
+        cmd += ["-Z", "unstable-options", "--harness-timeout", "%ds" % harness_timeout]
     if extra:
         cmd += extra
     env = dict(os.environ, CARGO_NET_OFFLINE="true", CARGO_TARGET_DIR=os.path.join(d, "target"))
